@@ -163,6 +163,20 @@ Proof. exact cancel_for_good_run. Qed.
 Print Assumptions C09_cancel_for_good_run.
 
 (** ** fail-stop *)
+(* in one statement: a replica reached from the initial state whose deadline is still pending when
+   the next tick takes logical time past it (and which therefore was never past it before) panics
+   on that tick with the latch set, and from then on every update returns a panic without changing
+   anything and every query answers QPanic *)
+Theorem C09_failstop : forall P cs d,
+  run P cs = Live d -> d_failed d = false -> d_deadline d <> 0 -> d_deadline d < d_tick d + p_step P ->
+  d_tick d <= d_deadline d /\
+  exists d', db_step P d CTick = SPanic d' /\ d_failed d' = true /\
+    (forall c, rstep P (Live d') c = (Live d', None)) /\
+    (forall cs', run_from P (Live d') cs' = Live d' /\ results_from P (Live d') cs' = replicate (length cs') None) /\
+    (forall q, db_query P d' q = QPanic).
+Proof. exact failstop. Qed.
+Print Assumptions C09_failstop.
+
 (* the tick rule, exactly: panic iff a deadline is pending and the NEW tick is > deadline *)
 Theorem C09_failstop_tick : forall P d,
   d_failed d = false ->
